@@ -65,6 +65,19 @@ let handle line =
     (match res with
      | SOk (c, cd) -> "OK " ^ (match c.cfile with None -> "N" | Some f -> cl_hex f) ^ " " ^ b2s cd
      | SExn e -> "EXN " ^ exn_name e) ^ " " ^ print_world w'
+  | "M" -> let allow = next_bool st in let md = next_int st in
+    let (w, mt) = next_world st in
+    let rs = next_list st (fun st ->
+      let r = next_int st in
+      let pg = next_list st (fun st -> match next st with "F" -> PFail | t -> PResp (n_of_int (int_of_string t))) in
+      let cs = next_list st next_cand in
+      { r_retries = nat_of_int r; r_pages = pg; r_listing = cs }) in
+    let ((w', res), tr) = multi_get_dist toy_sha mt allow (if md < 0 then None else Some (n_of_int md)) rs w in
+    let asked = List.length tr in
+    let pages = List.mapi (fun i r -> if i < asked then string_of_int (int_of_nat (snd (scan_page r.r_retries r.r_pages O))) else "-") rs in
+    (match res with
+     | SOk (c, cd) -> "OK " ^ (match c.cfile with None -> "N" | Some f -> cl_hex f) ^ " " ^ b2s cd
+     | SExn e -> "EXN " ^ exn_name e) ^ " " ^ print_world w' ^ " PAGES " ^ String.concat " " pages
   | "P" -> let r = next_int st in
     let sc = next_list st (fun st -> match next st with "F" -> PFail | t -> PResp (n_of_int (int_of_string t))) in
     let (res, n) = scan_page (nat_of_int r) sc O in
